@@ -414,8 +414,14 @@ pub fn gen_idprog(rng: &mut Rng) -> String {
         k(rng),
         m = w(15)
     ));
+    // generics used at two types, a higher-order call, a global array
+    s.push_str(&format!("fn id{i}(v){{\n  v\n}}\n", i = w(16)));
+    s.push_str(&format!("fn ap{a}(f, x){{\n  f(x)\n}}\n", a = w(17)));
+    s.push_str(&format!("let arr{r} = [{}, {}, {}, {}]\n", k(rng), k(rng), k(rng), k(rng), r = w(18)));
     s.push_str("fn dsp(){\n");
     s.push_str(&format!("  let t = c{}(1.0);\n", w(13)));
+    s.push_str(&format!("  let (ga, gb) = id{i}((t, 2.0));\n  let g0 = id{i}(3.0) + ga * gb;\n", i = w(16)));
+    s.push_str(&format!("  let g1 = ap{a}(|y| y * {}, t) + arr{r}[1] + arr{r}[3];\n", k(rng), a = w(17), r = w(18)));
     s.push_str(&format!("  let pa = ph{}(4.0);\n  let pb = ph{}(3.0);\n", w(14), w(14)));
     s.push_str(&format!("  let v1 = g{}(pa, pb);\n", w(5)));
     s.push_str(&format!(
@@ -427,7 +433,7 @@ pub fn gen_idprog(rng: &mut Rng) -> String {
     ));
     s.push_str(&format!("  let v3 = h{}(t);\n", w(12)));
     s.push_str(&format!("  let v4 = cl{}(mem(t));\n", w(15)));
-    s.push_str("  (v1 + v2, v3 + v4)\n}\n");
+    s.push_str("  (v1 + v2 + g0, v3 + v4 + g1)\n}\n");
     s
 }
 
